@@ -11,7 +11,11 @@ def run(ctx):
     ctx.rule = ("part B: seeded runs of DE/PSO/Nelder-Mead/bayesian_opt/powell/bfgs/lbfgs on integer-valued objectives "
                 "(dims 1-3, small budgets, minimise f and maximise -f on the same seed); non-trivial = the best improved after "
                 "the start phase and a worse point was evaluated after the final best; distinct = canonical JSON of the case")
-    ctx.proof_step(["C19"], props_file="Props/C19_b.v")
+    # only part B's files (build.sh accepts file paths: `find <file> -name '*.v'`), so that part A's files being
+    # edited concurrently cannot break this driver; the real C19.py builds the whole directory
+    from harness.core import COQ
+    mine = sorted(str(f.relative_to(COQ)) for f in (COQ / "C19").glob("B_*.v"))
+    ctx.proof_step(mine, props_file="Props/C19_b.v")
     C19_b.run_part(ctx)
 
 
